@@ -86,7 +86,7 @@ PROPS["C11"] = {
 }
 
 PROPS["C05"] = {
-    "modules": ["SamlVerif.Props.C05", "SamlVerif.Props.PureSaml"],
+    "modules": ["SamlVerif.Props.C05", "SamlVerif.Props.TransIdP", "SamlVerif.Props.PureSaml"],
     "trusted_base": ["modelled, not verified: base64/inflate decoding and encoding/xml unmarshalling of the AuthnRequest (the model starts from the unmarshalled "
                      "fields; the harness sends real GET-deflate and POST encodings through NewIdpAuthnRequest + Validate)"],
     "assumptions": ["freshness is read one-sidedly (now <= IssueInstant + MaxIssueDelay), as the anchored code words it"],
